@@ -3,7 +3,7 @@
    overflow int64 (Σ costs < 2^63); outside that regime the code's `used + cost` wraps. *)
 From stdpp Require Import gmap.
 From Ristretto Require Import Base.Word Cache.Policy Cache.PolicyProofs Cache.Store Cache.Machine Cache.MachineProofs
-  Cache.CapProofs.
+  Cache.CapProofs Cache.AddRace.
 Local Open Scope Z_scope.
 
 (* In every reachable state of the cache machine — every number of client threads, every interleaving with the
@@ -55,6 +55,20 @@ Example C03_calm_nonvacuous :
   map_to_list (p_costs (s_pol (mrun cap_cfg (init_state 100 5 1000 true) cap_sched_calm))) = [(8%N, 70)].
 Proof. exact calm_example. Qed.
 
+(* UpdateMaxCost stores the budget atomically without the policy mutex, and Add re-reads it on every turn of its
+   eviction loop.  For EVERY stream of budgets Add may see (Cache/AddRace.v: the loop re-stated with one budget per
+   read) the loop terminates within the fuel of the atomic model and the accounting stays exact; with the budget
+   unchanged it is the loop the machine uses. *)
+Theorem C03_add_any_budget_stream : forall maxs orders est p m key cost,
+  pol_add_mx maxs orders est p m key cost <> AddOutOfFuel /\
+  (forall vs added p' m' r rej, pol_add_mx maxs orders est p m key cost = AddOk vs added p' m' r rej ->
+                                pol_ok p -> pol_ok p') /\
+  pol_add_mx [] orders est p m key cost = pol_add orders est p m key cost.
+Proof.
+  intros. split; [apply pol_add_mx_terminates|]. split; [|apply pol_add_mx_const].
+  intros vs added p' m' r rej H Hok. exact (pol_add_mx_ok _ _ _ _ _ _ _ _ _ _ _ _ _ H Hok).
+Qed.
+
 Example C03_nonvacuous :
   exists p' m' rounds rej, pol_add [] (fun _ => 0) (pol_insert (pol_insert (pol_new 100) 1 60) 2 30) (m_zero true) 3 40
      = AddOk [(1%N, 60)] true p' m' rounds rej /\ pol_cap p' = 30 /\ pol_ok p'.
@@ -65,3 +79,4 @@ Print Assumptions C03_add_bounded.
 Print Assumptions C03_nonneg_add.
 Print Assumptions C03_remaining_nonneg.
 Print Assumptions C03_raise_goes_negative.
+Print Assumptions C03_add_any_budget_stream.
